@@ -33,6 +33,22 @@ def appFields : List (String × String × Bool) :=
 
 def wireStep (t : Tokens) (impl : Option String) : StepOut :=
   match tokStr t 1 with
+  | "nobody" =>
+    -- a message that announces a body it does not have is not answered at all (transaction, app) or ignored (other tags);
+    -- if anything is answered, it must be what the agent accepts as a reply: union tag MESSAGE_BODY_APP_REPLY
+    let ty := ((kvGet t "type").bind String.toNat?).getD 0
+    -- (a message without a run id string is too short for the size check; `None` and `AppReply` are ignored quietly; a tag
+    -- that announces a body - or an unknown one - is a protocol error)
+    let quiet := some ty == cEnumVal "MESSAGE_BODY_NONE" || some ty == cEnumVal "MESSAGE_BODY_APP_REPLY"
+    let model := if kvGet t "run" != some "-" && quiet then "reply=none err=0" else "reply=none err=1"
+    let fails := match impl with
+      | some line =>
+        if line.startsWith "reply=tag:" then
+          (if some ((line.drop 10).toString.toNat?.getD 999) == cEnumVal "MESSAGE_BODY_APP_REPLY" then [] else
+            [s!"C15 wire: the daemon answered with a message whose body tag is {(line.drop 10).toString}; the agent only accepts MESSAGE_BODY_APP_REPLY ({(cEnumVal "MESSAGE_BODY_APP_REPLY").getD 0}) as a reply"])
+        else []
+      | none => []
+    { model := model, specFails := fails }
   | "reply" =>
     let st := (kvGet t "state").getD ""
     let slotOk := (kvGet t "slot").bind String.toNat? == cEnumVal "APP_REPLY_FIELD_STATUS"
